@@ -75,7 +75,7 @@ typedef struct {
     volatile int nviol;
     char viol_case[3][1024], viol_msg[3][512];
     char cur[1024];                      /* case being executed (for crash attribution) */
-    volatile int done;
+    volatile int done, cut;              /* cut: the deadline stopped the enumeration */
 } shm_t;
 static shm_t *S;
 static const char *g_filter;             /* replay: only the case with this string */
@@ -93,6 +93,7 @@ static uint64_t fnv(const char *s) { uint64_t h = 1469598103934665603ULL; for (;
 static void fail_case(const char *cs, const char *fmt, ...)
 {
     char m[512]; va_list ap; va_start(ap, fmt); vsnprintf(m, sizeof(m), fmt, ap); va_end(ap);
+    for (char *q = m; *q; q++) if ((unsigned char)*q < 0x20 || (unsigned char)*q > 0x7e) *q = '?';     /* poisoned / garbage strings of the code under test */
     if (g_verbose) printf("  case [%s]: %s\n", cs, m);
     int k = S->nviol; if (k < 3) { snprintf(S->viol_case[k], 1024, "%s", cs); snprintf(S->viol_msg[k], 512, "%s", m); } S->nviol = k + 1;
 }
@@ -102,7 +103,8 @@ static int begin_case(const char *cs)
 {
     if (g_filter) { if (strcmp(cs, g_filter)) return 0; }
     else if (case_no++ < skip_until) return 0;
-    if (S->nviol >= 3) return 0;
+    if (S->nviol >= 3 || S->cut) return 0;
+    if (sx_deadline > 0 && (S->evals & 4095) == 0 && sx_now() > sx_deadline) { S->cut = 1; return 0; }
     memcpy(S->cur, cs, strlen(cs) + 1);
     hx_forget();
     S->evals++;
@@ -114,7 +116,7 @@ static void end_case(const char *cs, const char *outcome, int nontrivial)
     if (hx_err[0]) fail_case(cs, "%s", hx_err);
     oset_add(&outcomes, fnv(outcome));
     if (nontrivial) S->nontrivial++;
-    if (g_verbose) printf("  case [%s] -> %s\n", cs, outcome);
+    if (g_verbose) { char o[700]; snprintf(o, sizeof(o), "%s", outcome); for (char *q = o; *q; q++) if ((unsigned char)*q < 0x20 || (unsigned char)*q > 0x7e) *q = '?'; printf("  case [%s] -> %s\n", cs, o); }
     S->index++;
 }
 
@@ -426,7 +428,7 @@ static int run_leg(const char *name, void (*leg)(void))
         if (S->nviol >= 3 || (sx_deadline > 0 && sx_now() > sx_deadline)) break;
     }
     for (int k = 0; k < S->nviol && k < 3; k++) sx_violation(name, S->viol_case[k], S->viol_msg[k]);
-    if (S->nviol) exhaustive = 0;
+    if (S->nviol || S->cut) exhaustive = 0;
     char extra[200]; snprintf(extra, sizeof(extra), "\"crashes\":%d,\"observations\":%ld", crashes, (long)S->observations);
     const char *sp[1] = { S->cur };
     sx_report(name, total_outcomes, S->evals, S->evals, S->nontrivial, total_outcomes, exhaustive, S->nviol, sx_now() - t0, extra, sp, 1);
